@@ -190,6 +190,10 @@ class Tracer:
         self.in_zip = False
         self.injected = False
         self.errno_name = "EIO"
+        self.persist = False
+        self.kill_after = None
+        self.after = 0
+        self.fault_call = None
         self.active = False
         self.chunks = []
 
@@ -213,9 +217,22 @@ class Tracer:
         """a canonical call is about to happen"""
         idx = len(self.trace)
         self.trace.append(call)
-        if self.injected or self.k is None or idx != self.k:
+        if self.k is None:
+            return
+        if self.injected:
+            # after the injected fault: optionally the process dies a few calls later, and / or the failing condition persists
+            if self.kill_after is not None:
+                self.after += 1
+                if self.after >= self.kill_after:
+                    self.trace.pop()
+                    os._exit(77)
+            if self.persist and self.mode == "fault" and call[:2] == self.fault_call[:2] and call[0] == self.fault_call[0]:
+                raise OSError(getattr(errno, self.errno_name, errno.EIO), "injected fault (persistent)")
+            return
+        if idx != self.k:
             return
         self.injected = True
+        self.fault_call = call
         if self.mode == "kill":
             self.trace.pop()
             os._exit(77)
@@ -329,6 +346,8 @@ def instrumented(job, out_fd):
     if job["writer"] == "atomic_tmpdir":
         tr.tmpdirs.append(os.path.join(tr.workdir, CALLER_TMP))
     tr.errno_name = job.get("errno", "EIO")
+    tr.persist = bool(job.get("persist"))
+    tr.kill_after = job.get("kill_after_fault")
     sys.addaudithook(tr.hook)
     orig_open_ = cio.open_
 
